@@ -48,7 +48,8 @@ type tcpConnSpec struct {
 	N           int      `json:"n,omitempty"`
 	Fin         bool     `json:"fin"`
 	Validate    bool     `json:"validate,omitempty"`
-	TFailAfter  int      `json:"target_write_fails_after,omitempty"` // the connection to the target accepts this many bytes, then every write fails (monitor-only cases)
+	TReset      bool     `json:"target_resets_after_reply,omitempty"` // the target reads the whole upload, replies, then resets the connection (monitor-only cases)
+	TFailAfter  int      `json:"target_write_fails_after,omitempty"`  // the connection to the target accepts this many bytes, then every write fails (monitor-only cases)
 	ConnectOK   bool     `json:"connect_ok"`
 	TOut        [2]int   `json:"tout"`
 	TLate       [2]int   `json:"tlate,omitempty"` // a second block the target sends only after the handshake timeout has long passed (the client is silent and keeps the connection open)
@@ -389,7 +390,13 @@ func runTCPConn(auth service.StreamAuthenticateFunc, sp *tcpConnSpec, tee *promT
 					c.Write(genBytes(sp.TLate[0], uint32(sp.TLate[1])))
 				}
 			}
-			if sp.TFinFirst {
+			if sp.TReset {
+				read() // the client has finished: the upload direction ends cleanly
+				c.Write(tout)
+				time.Sleep(30 * time.Millisecond)
+				c.(*net.TCPConn).SetLinger(0) // RST: the download direction ends with an error
+				c.Close()
+			} else if sp.TFinFirst {
 				c.Write(tout)
 				c.(*net.TCPConn).CloseWrite()
 				read()
